@@ -28,9 +28,9 @@ CACHE = os.path.join(HERE, '.cache')
 JOBS = []
 
 
-def native(id, props, cls, bound, crate, target, harness, test, tier='quick', what=''):
+def native(id, props, cls, bound, crate, target, harness, test, tier='quick', what='', pairs=()):
     JOBS.append(dict(id=id, props=props, engine='native', cls=cls, bound=bound, crate=crate, target_file=target,
-                     harness=harness, test=test, tier=tier, what=what, run=run_native))
+                     harness=harness, test=test, tier=tier, what=what, run=run_native, pairs=list(pairs)))
 
 
 def all_jobs():
@@ -148,7 +148,7 @@ def run_native(job, wd, tier, seed, replay_input=None):
     lk = _crate_locks.setdefault(job['crate'], threading.Lock())
     with lk:
         rc, output, secs, cmd = _crate_result(job['crate'], tier)
-    res = dict(id=job['id'], engine='native (cargo test on a scratch copy of the real crate)', cls=job['cls'], bound=job['bound'],
+    res = dict(pairs=job.get('pairs', []), id=job['id'], engine='native (cargo test on a scratch copy of the real crate)', cls=job['cls'], bound=job['bound'],
                target=job['target_file'] + ' + native/' + job['harness'] + ' :: ' + job['test'], seconds=secs, cmd=cmd,
                trusted=['native job %s: rustc/cargo of the repository toolchain; harness native/%s' % (job['id'], job['harness'])])
     test_line = re.search(r'^test .*%s ... (\w+)' % re.escape(job['test']), output, re.M)
